@@ -276,17 +276,24 @@ func xmlAddKeyElements(s Entry, parent *etree.Element) {
 	parentSchema, levelsUp := s.GetFirstAncestorWithSchema()
 	// from the parent we get the keys as slice
 	schemaKeys := parentSchema.GetSchemaKeys()
-	var treeElem Entry = s
 	// the keys do match the levels up in the tree in reverse order
-	// hence we init i with levelUp and count down
+	// hence we walk up, one level per key
+	values := make([]string, levelsUp)
+	var treeElem Entry = s
 	for i := levelsUp - 1; i >= 0; i-- {
-		// skip if the element already exists
-		existingElem := parent.SelectElement(schemaKeys[i])
-		if existingElem == nil {
-			// and finally we create the patheleme key attributes
-			parent.CreateElement(schemaKeys[i]).SetText(treeElem.PathName())
-		}
-		// one level up per key, whether or not the key element was already present
+		values[i] = treeElem.PathName()
 		treeElem = treeElem.GetParent()
+	}
+	// the key elements come first, in the order of the key statement,
+	// whether they were already present or are created here
+	for i := 0; i < levelsUp; i++ {
+		keyElem := parent.SelectElement(schemaKeys[i])
+		if keyElem == nil {
+			keyElem = etree.NewElement(schemaKeys[i])
+			keyElem.SetText(values[i])
+		} else {
+			parent.RemoveChild(keyElem)
+		}
+		parent.InsertChildAt(i, keyElem)
 	}
 }
